@@ -43,8 +43,11 @@ class Case:
         self.expect = expect      # path of a hand-written v3 XML file the nolibxml re-export must reproduce byte for byte
 
     def script(self, mode, ver, tmpdir, idx):
-        m = mode if mode == "buffer" else "file:%s/x%d.xml" % (tmpdir, idx)
-        return "\n".join(["case %s" % self.name.replace("\n", " ")] + self.cfg + ["load"] + self.anns + ["rt %s %s" % (m, ver), "end"]) + "\n"
+        # mode: buffer | file | stdio, optionally "+nd" (reload with HWLOC_XML_USERDATA_NOT_DECODED)
+        base, _, opt = mode.partition("+")
+        m = base if base == "buffer" else "%s:%s/x%d.xml" % (base, tmpdir, idx)
+        post = [a.replace("{TMP}", "%s/g%d.xml" % (tmpdir, idx)) for a in self.anns]
+        return "\n".join(["case %s" % self.name.replace("\n", " ")] + self.cfg + ["load"] + post + [("rt %s %s %s" % (m, ver, opt)).rstrip(), "end"]) + "\n"
 
 
 def corpus_cases(scratch=None):
@@ -161,6 +164,51 @@ def plain_userdata_cases(run):
     return out
 
 
+def feature_cases(run, scratch):
+    """Enumerated cases for paths the random stream reaches rarely or never: returns (case, [(pairing, mode, ver), ...])."""
+    out = []
+    ALL = PAIRINGS
+    SYN = ["filter all 0", "flags 8", "src synthetic package:2 [numa] l2:2 pu:2"]
+    UD = ["ann ud 0 1 s6e s000102ff", "ann ud 1 0 - s68656c6c6f", "ann ud 3 1 - s00", "ann ud 3 0 s7120 s61206220630a64", "ann ud 4 1 s62 s", "ann ud 5 0 - s",
+          "ann name 2 s613c623e2622", "ann info 2 s6b s76"]
+    # argument checks (EINVAL paths) + HWLOC_LIBXML generic variable
+    out.append((Case("feature:guards", "feature", SYN, ["guards {TMP}"] + UD[:2], ["feature"]), [(("0", "0", "g"), "buffer", "v3"), (("1", "1", "g"), "file", "v3")]))
+    # "-" = stdout / stdin, and the not-decoded userdata pass-through, over the whole matrix
+    out.append((Case("feature:stdio", "feature", SYN, UD, ["feature"]), [(p, "stdio", "v3") for p in ALL] + [(("0", "0"), "stdio", "v2")]))
+    out.append((Case("feature:userdata-not-decoded", "feature", SYN, UD, ["feature"]),
+                [(p, m, "v3") for p in ALL for m in ("buffer+nd", "file+nd")] + [(("0", "0"), "stdio+nd", "v3")]))
+    # topology diffs: export to file and buffer, load both back, apply
+    out.append((Case("feature:diff-xml", "feature", SYN, ["diffrt {TMP} %s" % G.hx(b"ref <name> & \"q\""), "ann name 1 s70"], ["feature"]),
+                [(("0", "0"), "buffer", "v3"), (("1", "1"), "buffer", "v3"), (("0", "1"), "file", "v3"), (("1", "0"), "file", "v3")]))
+    # support fields other than 0/1 are exported with a value attribute
+    out.append((Case("feature:support-values", "feature", SYN, ["ann support membind 3 7", "ann support cpubind 0 255", "ann support discovery 5 2"], ["feature"]),
+                [(p, "buffer", "v3") for p in ALL]))
+    # v2: HOPS matrices are written as LATENCY, and read back as HOPS when named XGMIHops
+    out.append((Case("feature:v2-xgmihops", "feature", SYN, ["ann dist 4 33 5 %s" % G.hx(b"XGMIHops"), "ann dist 6 34 2 %s" % G.hx(b"OtherHops")], ["feature"]),
+                [(p, "buffer", "v2") for p in ALL] + [(("0", "0"), "buffer", "v3")]))
+    # OS devices of every kind: the v2 osdev_type / Backend / Size conversions of export and import
+    d = scratch.unpack(os.path.join(C.REPO, "tests/hwloc/linux/2pa-pcidomain32bits.tar.bz2"))
+    LIN = ["env HWLOC_COMPONENTS linux,stop", "env HWLOC_THISSYSTEM 0", "filter all 0", "flags 0", "src fsroot " + d]
+    sets = [
+        [(1, None, b"sda"), (2, None, b"dax0.0"), (32, None, b"mlx5_0"), (16, b"BXI", b"bxi0"), (16, None, b"eth0")],
+        [(64, None, b"dma0"), (8, None, b"nvml0"), (8, None, b"rsmi1"), (8 | 4, b"CUDA", b"cuda0"), (4, b"Display", b":0.0")],
+        [(8 | 4, b"OpenCL", b"opencl0d0"), (8 | 4, b"LevelZero", b"ze0"), (8, b"OpenCL", b"opencl0d1"), (8 | 4, b"RSMI", b"rsmi0"), (8 | 4, b"NVML", b"nvml1")],
+        [(0, None, b"none"), (8, b"VectorEngine", b"ve0"), (4, b"CUDA", b"cuda1"), (3, None, b"pmem0"), (48, None, b"hfi1_0")],
+    ]
+    for i, st in enumerate(sets):
+        anns = []
+        for k, (types, sub, nm) in enumerate(st):
+            anns.append("ann osdev %d %d %s %s" % (k, types, G.hx(sub), G.hx(nm)))
+        anns.append("ann osdevinfo 0 %s %s" % (G.hx(b"Size"), G.hx(b"1024")))
+        anns.append("ann osdevinfo 1 %s %s" % (G.hx(b"CUDAGlobalMemorySize"), G.hx(b"2048 KiB")))
+        anns.append("ann osdevinfo 2 %s %s" % (G.hx(b"OpenCLDeviceType"), G.hx(b"GPU")))
+        if i < 2:
+            anns.append("ann osdevinfo 3 %s %s" % (G.hx(b"Backend"), G.hx(b"RSMI")))      # an explicit Backend info suppresses the v2 one
+        out.append((Case("feature:osdev%d" % i, "feature", LIN, anns, ["feature"]),
+                    [(p, "buffer", "v2") for p in ALL] + [(("0", "0"), "file", "v3"), (("1", "1"), "buffer", "v3")]))
+    return out
+
+
 def snapshot_cases(run, scratch):
     rng = run.rng
     quick = run.tier == "quick"
@@ -252,8 +300,16 @@ def parse_output(txt):
 
 
 def run_shard(exe, script, pairing, timeout=900):
-    env = C.run_env(HWLOC_LIBXML_EXPORT=pairing[0], HWLOC_LIBXML_IMPORT=pairing[1])
+    if len(pairing) > 2:
+        # the generic variable HWLOC_LIBXML selects both sides at once
+        env = C.run_env(HWLOC_LIBXML=pairing[0])
+        env.pop("HWLOC_LIBXML_EXPORT", None)
+        env.pop("HWLOC_LIBXML_IMPORT", None)
+    else:
+        env = C.run_env(HWLOC_LIBXML_EXPORT=pairing[0], HWLOC_LIBXML_IMPORT=pairing[1])
+        env.pop("HWLOC_LIBXML", None)
     env.pop("HWLOC_DEBUG_CHECK", None)
+    env.pop("HWLOC_XML_USERDATA_NOT_DECODED", None)
     rc, out, err = C.sh([exe], input=script.encode(), env=env, timeout=timeout)
     return rc, out.decode(errors="replace"), err.decode(errors="replace")
 
@@ -431,7 +487,32 @@ def judge_rt(r, ver, flags):
         return v
     if r["bcheck"] != "Bcheck ok":
         v.add("reloaded-check-abort", "hwloc_topology_check() aborts on the reloaded topology")
+    # ---- argument checks of the export entry points ----
+    for l in r["other"]:
+        if l.startswith("G "):
+            nm = l.split(" ")[1]
+            d = kv(l)
+            if nm == "export-with-refused-userdata":
+                if d.get("rc") != "0" or d.get("has_userdata") != "0":
+                    v.add("guard:" + nm, "export with only refused userdata calls: %s" % l)
+            elif nm == "file-unwritable":
+                if d.get("rc") != "-1":
+                    v.add("guard:" + nm, "export to an unwritable path returned %s" % d.get("rc"))
+            elif d.get("rc") != "-1" or d.get("errno") != "EINVAL":
+                v.add("guard:" + nm, "expected -1/EINVAL: %s" % l)
+    # ---- topology diff through XML file and buffer (same export callbacks, diff entry points) ----
+    for l in r["other"]:
+        if l.startswith("DIFF "):
+            want = "export_file=0 export_buffer=0 filebuf_same=1 load_file=0 same=1 ref=1 load_buffer=0 same=1 ref=1 apply=0 name_ok=1 load_missing=-1"
+            m = re.match(r"DIFF build rc=0 n=(\d+) (.*)$", l)
+            if not m or int(m.group(1)) < 2 or m.group(2).strip() != want:
+                v.add("diff-xml-roundtrip", "diff export/load through XML: got '%s', expected '... %s'" % (l, want))
     # ---- userdata transcript ----
+    if r["rt"] and kv(r["rt"]).get("nd") == "1":
+        # pass-through mode: the callback receives "base64:<name>" / "normal-anon" and the element content as stored
+        import base64 as _b64
+        exp_ud = [(gp, (b"base64" if b64 == "1" else b"normal") + ((b":" + name) if name is not None else b"-anon"), ln,
+                   _b64.b64encode(data) if b64 == "1" else data, b64) for gp, name, ln, data, b64 in exp_ud]
     got = []
     for l in r["UI"]:
         d = kv(l)
@@ -765,11 +846,14 @@ def check(run, replay=None):
                 p = re.search(r"pairing: (\d) (\d)", head)
                 mode = re.search(r"mode: (\S+)", head).group(1)
                 ver = re.search(r"ver: (\S+)", head).group(1)
-                cfg = [l for l in body if l and not l.startswith("ann ") and l not in ("load", "end") and not l.startswith("rt ")]
-                anns = [l for l in body if l.startswith("ann ")]
-                jobs.append((Case("replay", "replay", cfg, anns), (p.group(1), p.group(2)), "buffer" if mode == "buffer" else "file", ver))
+                cfg = [l for l in body if l and not l.startswith("ann ") and not l.startswith("guards ") and not l.startswith("diffrt ") and l not in ("load", "end") and not l.startswith("rt ")]
+                anns = [l for l in body if l.startswith("ann ") or l.startswith("guards ") or l.startswith("diffrt ")]
+                jobs.append((Case("replay", "replay", cfg, anns), (p.group(1), p.group(2)), mode, ver))
             else:
                 cases = make_cases(run, scratch) + snapshot_cases(run, scratch) + plain_userdata_cases(run)
+                for c, plan in feature_cases(run, scratch):
+                    for p, mode, ver in plan:
+                        jobs.append((c, p, mode, ver))
                 for ci, c in enumerate(cases):
                     if c.kind == "udplain":
                         for p in PAIRINGS:
@@ -897,7 +981,7 @@ def check(run, replay=None):
                                 run.bump("model-predicts-export-overflow")
                             continue
                         hc = kv(results[i]["X1"])["hex"][1:]
-                        if mode == "buffer" and hc.endswith("00"):
+                        if mode.startswith("buffer") and hc.endswith("00"):
                             hc = hc[:-2]          # the buffer API counts the ending NUL
                         if hm != hc:
                             bm, bc = bytes.fromhex(hm) if re.fullmatch(r"[0-9a-f]*", hm) else hm.encode(), bytes.fromhex(hc)
